@@ -40,6 +40,9 @@ func (m *ModelServer) ListWasteRecords(ctx context.Context, req *traits.ListWast
 			return nil, err
 		}
 		startIndex, _ = strconv.Atoi(pageToken)
+		if startIndex < 0 || startIndex > m.model.GetWasteRecordCount() {
+			return nil, status.Error(codes.InvalidArgument, "bad page token")
+		}
 	}
 
 	count := req.PageSize
